@@ -48,25 +48,252 @@ func (in *Interp) payloadOf(s SliceV) (Value, bool) {
 
 func errT() types.Type { return types.Universe.Lookup("error").Type() }
 
+// deepCopy copies a value graph (the abstract model of serialise + deserialise).
+func (in *Interp) deepCopy(v Value) Value {
+	switch x := v.(type) {
+	case MapV:
+		if x.m == nil {
+			return x
+		}
+		m := &MapObj{}
+		for i := range x.m.keys {
+			m.keys = append(m.keys, in.deepCopy(x.m.keys[i]))
+			m.vals = append(m.vals, in.deepCopy(x.m.vals[i]))
+		}
+		return MapV{m}
+	case SliceV:
+		if x.symLen != nil || x.isNil {
+			return x
+		}
+		if p, ok := in.payloadOf(x); ok {
+			_ = p
+			return x // abstract bytes are immutable objects
+		}
+		arr := make([]*Loc, x.n)
+		for i := 0; i < x.n; i++ {
+			arr[i] = in.copyLoc(x.arr[x.off+i])
+		}
+		return SliceV{arr: arr, n: x.n, cp: x.n}
+	case IfaceV:
+		return IfaceV{t: x.t, v: in.deepCopy(x.v)}
+	case StructV:
+		f := make([]Value, len(x.f))
+		for i := range f {
+			f[i] = in.deepCopy(x.f[i])
+		}
+		return StructV{f}
+	case ArrayV:
+		e := make([]Value, len(x.e))
+		for i := range e {
+			e[i] = in.deepCopy(x.e[i])
+		}
+		return ArrayV{e}
+	case PtrV:
+		if x.loc == nil {
+			return x
+		}
+		return PtrV{loc: in.copyLoc(x.loc)}
+	}
+	return v
+}
+
+func (in *Interp) copyLoc(l *Loc) *Loc {
+	if l.sub != nil {
+		n := &Loc{sub: make([]*Loc, len(l.sub))}
+		for i, s := range l.sub {
+			n.sub[i] = in.copyLoc(s)
+		}
+		return n
+	}
+	return &Loc{v: in.deepCopy(l.get())}
+}
+
+// abstract encoded bytes: one cell identifying the payload, symbolic length >= 1
+func (in *Interp) newDocBytes(payload Value) SliceV {
+	arr := []*Loc{{v: BVu(8, 0)}}
+	in.docs[arr[0]] = payload
+	ln := in.fresh(64, "enclen")
+	in.addPC(And(CmpBV("bvsle", BVi(64, 1), ln), CmpBV("bvsle", ln, BVi(64, 1<<30))))
+	return SliceV{arr: arr, n: 1, cp: 1, symLen: ln}
+}
+
+func (in *Interp) readerBytes(r Value) SliceV {
+	iv, ok := r.(IfaceV)
+	if !ok || iv.t == nil {
+		in.abort("unsupported", "decoder over nil reader")
+	}
+	p, ok := iv.v.(PtrV)
+	if !ok || p.loc == nil || p.loc.sub == nil {
+		in.abort("unsupported", "decoder over a reader that is not *bytes.Reader")
+	}
+	return p.loc.sub[0].get().(SliceV)
+}
+
+// storeDecoded assigns a decoded payload to the pointer target, adapting interface wrapping.
+func (in *Interp) storeDecoded(target Value, payload Value) {
+	tv, ok := target.(IfaceV)
+	if !ok || tv.t == nil {
+		in.abort("unsupported", "Unmarshal into nil")
+	}
+	pt, ok := tv.t.Underlying().(*types.Pointer)
+	if !ok {
+		in.abort("unsupported", "Unmarshal into non-pointer "+tv.t.String())
+	}
+	val := in.deepCopy(payload)
+	if _, isI := pt.Elem().Underlying().(*types.Interface); !isI {
+		if iv, wrapped := val.(IfaceV); wrapped {
+			val = iv.v
+		}
+	} else if _, wrapped := val.(IfaceV); !wrapped {
+		in.abort("unsupported", "Unmarshal of unwrapped payload into interface")
+	}
+	store(tv.v.(PtrV).loc, val)
+}
+
+func (in *Interp) eofErr() Value {
+	p := in.prog.ImportedPackage("io")
+	if p == nil || p.Var("EOF") == nil {
+		return in.newErrorString("EOF")
+	}
+	return load(in.global(p.Var("EOF")), errT())
+}
+
+func (in *Interp) docQuery(payload Value, path string) (Value, bool) {
+	cur := payload
+	for _, seg := range strings.Split(path, ".") {
+		if iv, isI := cur.(IfaceV); isI {
+			cur = iv.v
+		}
+		m, isM := cur.(MapV)
+		if !isM || m.m == nil {
+			return nil, false
+		}
+		v, ok := in.mapGet(m.m, strConst(seg))
+		if !ok {
+			return nil, false
+		}
+		cur = v
+	}
+	return cur, true
+}
+
+// sorted ascending copy of a symbolic set (forks on comparisons)
+func (in *Interp) setSorted(s *SetObj) []*Term {
+	out := append([]*Term{}, s.elems...)
+	for i := 1; i < len(out); i++ {
+		for j := i; j > 0; j-- {
+			if in.branch(CmpBV("bvult", out[j], out[j-1])) {
+				out[j], out[j-1] = out[j-1], out[j]
+			} else {
+				break
+			}
+		}
+	}
+	return out
+}
+
+func (in *Interp) newSetPtr(elems []*Term) Value {
+	l := &Loc{v: BVu(8, 0)}
+	in.sets[l] = &SetObj{elems: elems}
+	return PtrV{loc: l}
+}
+
+func (in *Interp) setUnion(sets []*SetObj) []*Term {
+	var out []*Term
+	acc := &SetObj{}
+	for _, s := range sets {
+		for _, e := range s.elems {
+			if in.setFind(acc, e) < 0 {
+				acc.elems = append(acc.elems, e)
+			}
+		}
+	}
+	out = acc.elems
+	return out
+}
+
+func (in *Interp) setInter(sets []*SetObj) []*Term {
+	if len(sets) == 0 {
+		return nil
+	}
+	var out []*Term
+	for _, e := range sets[0].elems {
+		all := true
+		for _, s := range sets[1:] {
+			if in.setFind(s, e) < 0 {
+				all = false
+				break
+			}
+		}
+		if all {
+			out = append(out, e)
+		}
+	}
+	return out
+}
+
+type setIter struct {
+	elems []*Term
+	pos   int
+}
+
 func (in *Interp) installLibStubs() {
 	S := in.stubs
 	const mp = "github.com/vmihailenco/msgpack/v5"
 	const ro = "github.com/RoaringBitmap/roaring/roaring64"
+	nilErr := IfaceV{}
+	// ---- msgpack: abstract documents
+	S[mp+".Marshal"] = func(in *Interp, fn *ssa.Function, a []Value) Value {
+		return TupleV{[]Value{in.newDocBytes(in.deepCopy(a[0])), nilErr}}
+	}
+	S[mp+".Unmarshal"] = func(in *Interp, fn *ssa.Function, a []Value) Value {
+		data := a[0].(SliceV)
+		if data.symLen == nil && data.n == 0 {
+			return in.eofErr()
+		}
+		payload, ok := in.payloadOf(data)
+		if !ok {
+			in.abort("unsupported", "Unmarshal of non-abstract bytes")
+		}
+		in.storeDecoded(a[1], payload)
+		return nilErr
+	}
 	S[mp+".NewDecoder"] = func(in *Interp, fn *ssa.Function, a []Value) Value {
-		return PtrV{loc: &Loc{v: BVu(8, 0)}}
+		l := &Loc{v: BVu(8, 0)}
+		if iv, ok := a[0].(IfaceV); ok && iv.t != nil {
+			in.decs[l] = a[0]
+		}
+		return PtrV{loc: l}
 	}
 	S["(*"+mp+".Decoder).Reset"] = func(in *Interp, fn *ssa.Function, a []Value) Value {
 		in.decs[a[0].(PtrV).loc] = a[1]
 		return nil
+	}
+	S["(*"+mp+".Decoder).Decode"] = func(in *Interp, fn *ssa.Function, a []Value) Value {
+		rd, ok := in.decs[a[0].(PtrV).loc]
+		if !ok {
+			in.abort("unsupported", "Decode without reader")
+		}
+		data := in.readerBytes(rd)
+		if data.symLen == nil && data.n == 0 {
+			return in.eofErr()
+		}
+		payload, ok := in.payloadOf(data)
+		if !ok {
+			in.abort("unsupported", "Decode of non-abstract bytes")
+		}
+		in.storeDecoded(a[1], payload)
+		return nilErr
 	}
 	S["(*"+mp+".Decoder).Query"] = func(in *Interp, fn *ssa.Function, a []Value) Value {
 		rd, ok := in.decs[a[0].(PtrV).loc]
 		if !ok {
 			in.abort("unsupported", "Query without Reset")
 		}
-		// reader is *bytes.Reader: field 0 is the []byte
-		r := rd.(IfaceV).v.(PtrV).loc
-		data := r.sub[0].get().(SliceV)
+		data := in.readerBytes(rd)
+		if data.symLen == nil && data.n == 0 {
+			return TupleV{[]Value{SliceV{isNil: true}, in.eofErr()}}
+		}
 		payload, ok := in.payloadOf(data)
 		if !ok {
 			in.abort("unsupported", "Query on non-abstract bytes")
@@ -75,37 +302,27 @@ func (in *Interp) installLibStubs() {
 		if !ok {
 			in.abort("unsupported", "symbolic query path")
 		}
-		cur := payload
-		found := true
-		for _, seg := range strings.Split(path, ".") {
-			iv, isI := cur.(IfaceV)
-			if isI {
-				cur = iv.v
-			}
-			m, isM := cur.(MapV)
-			if !isM {
-				found = false
-				break
-			}
-			v, ok := in.mapGet(m.m, strConst(seg))
-			if !ok {
-				found = false
-				break
-			}
-			cur = v
-		}
+		cur, found := in.docQuery(payload, path)
 		if !found {
-			return TupleV{[]Value{SliceV{isNil: true}, IfaceV{}}}
+			return TupleV{[]Value{SliceV{isNil: true}, nilErr}}
 		}
-		return TupleV{[]Value{SliceV{arr: []*Loc{{v: cur}}, n: 1, cp: 1}, IfaceV{}}}
+		return TupleV{[]Value{SliceV{arr: []*Loc{{v: in.deepCopy(cur)}}, n: 1, cp: 1}, nilErr}}
 	}
-	newSet := func(in *Interp, fn *ssa.Function, a []Value) Value {
-		l := &Loc{v: BVu(8, 0)}
-		in.sets[l] = &SetObj{}
-		return PtrV{loc: l}
-	}
+	// ---- roaring64: abstract finite sets of uint64
+	newSet := func(in *Interp, fn *ssa.Function, a []Value) Value { return in.newSetPtr(nil) }
 	S[ro+".New"] = newSet
 	S[ro+".NewBitmap"] = newSet
+	S[ro+".BitmapOf"] = func(in *Interp, fn *ssa.Function, a []Value) Value {
+		sv := a[0].(SliceV)
+		s := &SetObj{}
+		for i := 0; i < sv.n; i++ {
+			x := sv.arr[sv.off+i].get().(*Term)
+			if in.setFind(s, x) < 0 {
+				s.elems = append(s.elems, x)
+			}
+		}
+		return in.newSetPtr(s.elems)
+	}
 	S["(*"+ro+".Bitmap).CheckedAdd"] = func(in *Interp, fn *ssa.Function, a []Value) Value {
 		s := in.setOf(a[0])
 		x := a[1].(*Term)
@@ -123,15 +340,17 @@ func (in *Interp) installLibStubs() {
 		}
 		return nil
 	}
-	S["(*"+ro+".Bitmap).CheckedRemove"] = func(in *Interp, fn *ssa.Function, a []Value) Value {
+	remove := func(in *Interp, a []Value) bool {
 		s := in.setOf(a[0])
 		i := in.setFind(s, a[1].(*Term))
 		if i < 0 {
-			return Bool(false)
+			return false
 		}
 		s.elems = append(append([]*Term{}, s.elems[:i]...), s.elems[i+1:]...)
-		return Bool(true)
+		return true
 	}
+	S["(*"+ro+".Bitmap).CheckedRemove"] = func(in *Interp, fn *ssa.Function, a []Value) Value { return Bool(remove(in, a)) }
+	S["(*"+ro+".Bitmap).Remove"] = func(in *Interp, fn *ssa.Function, a []Value) Value { remove(in, a); return nil }
 	S["(*"+ro+".Bitmap).Contains"] = func(in *Interp, fn *ssa.Function, a []Value) Value {
 		return Bool(in.setFind(in.setOf(a[0]), a[1].(*Term)) >= 0)
 	}
@@ -141,21 +360,108 @@ func (in *Interp) installLibStubs() {
 	S["(*"+ro+".Bitmap).GetCardinality"] = func(in *Interp, fn *ssa.Function, a []Value) Value {
 		return BVu(64, uint64(len(in.setOf(a[0]).elems)))
 	}
+	S["(*"+ro+".Bitmap).GetSizeInBytes"] = func(in *Interp, fn *ssa.Function, a []Value) Value {
+		return BVu(64, uint64(8*len(in.setOf(a[0]).elems)+16))
+	}
+	S["(*"+ro+".Bitmap).Clear"] = func(in *Interp, fn *ssa.Function, a []Value) Value {
+		in.setOf(a[0]).elems = nil
+		return nil
+	}
+	S["(*"+ro+".Bitmap).Clone"] = func(in *Interp, fn *ssa.Function, a []Value) Value {
+		return in.newSetPtr(append([]*Term{}, in.setOf(a[0]).elems...))
+	}
+	S["(*"+ro+".Bitmap).Or"] = func(in *Interp, fn *ssa.Function, a []Value) Value {
+		s := in.setOf(a[0])
+		s.elems = in.setUnion([]*SetObj{s, in.setOf(a[1])})
+		return nil
+	}
+	S["(*"+ro+".Bitmap).And"] = func(in *Interp, fn *ssa.Function, a []Value) Value {
+		s := in.setOf(a[0])
+		s.elems = in.setInter([]*SetObj{s, in.setOf(a[1])})
+		return nil
+	}
+	S["(*"+ro+".Bitmap).Equals"] = func(in *Interp, fn *ssa.Function, a []Value) Value {
+		x, y := in.setOf(a[0]), in.setOf(a[1])
+		if len(x.elems) != len(y.elems) {
+			return Bool(false)
+		}
+		for _, e := range x.elems {
+			if in.setFind(y, e) < 0 {
+				return Bool(false)
+			}
+		}
+		return Bool(true)
+	}
+	variadic := func(a Value) []*SetObj {
+		sv := a.(SliceV)
+		var sets []*SetObj
+		for i := 0; i < sv.n; i++ {
+			sets = append(sets, in.setOf(sv.arr[sv.off+i].get()))
+		}
+		return sets
+	}
+	S[ro+".FastOr"] = func(in *Interp, fn *ssa.Function, a []Value) Value {
+		return in.newSetPtr(in.setUnion(variadic(a[0])))
+	}
+	S[ro+".FastAnd"] = func(in *Interp, fn *ssa.Function, a []Value) Value {
+		sets := variadic(a[0])
+		if len(sets) == 0 {
+			return in.newSetPtr(nil)
+		}
+		return in.newSetPtr(in.setInter(sets))
+	}
+	S[ro+".And"] = func(in *Interp, fn *ssa.Function, a []Value) Value {
+		return in.newSetPtr(in.setInter([]*SetObj{in.setOf(a[0]), in.setOf(a[1])}))
+	}
+	S[ro+".Or"] = func(in *Interp, fn *ssa.Function, a []Value) Value {
+		return in.newSetPtr(in.setUnion([]*SetObj{in.setOf(a[0]), in.setOf(a[1])}))
+	}
+	S["(*"+ro+".Bitmap).ToArray"] = func(in *Interp, fn *ssa.Function, a []Value) Value {
+		el := in.setSorted(in.setOf(a[0]))
+		arr := make([]*Loc, len(el))
+		for i, e := range el {
+			arr[i] = &Loc{v: e}
+		}
+		return SliceV{arr: arr, n: len(arr), cp: len(arr)}
+	}
+	S["(*"+ro+".Bitmap).Iterator"] = func(in *Interp, fn *ssa.Function, a []Value) Value {
+		it := &setIter{elems: in.setSorted(in.setOf(a[0]))}
+		ms := in.prog.ImportedPackage(ro)
+		if ms == nil || ms.Type("intIterator") == nil {
+			in.abort("unsupported", "roaring64.intIterator type not found")
+		}
+		return IfaceV{t: types.NewPointer(ms.Type("intIterator").Type()), v: it}
+	}
+	S["(*"+ro+".intIterator).HasNext"] = func(in *Interp, fn *ssa.Function, a []Value) Value {
+		it := a[0].(*setIter)
+		return Bool(it.pos < len(it.elems))
+	}
+	S["(*"+ro+".intIterator).Next"] = func(in *Interp, fn *ssa.Function, a []Value) Value {
+		it := a[0].(*setIter)
+		if it.pos >= len(it.elems) {
+			in.abort("panic", "roaring iterator Next past the end")
+		}
+		it.pos++
+		return it.elems[it.pos-1]
+	}
 	S["(*"+ro+".Bitmap).ToBytes"] = func(in *Interp, fn *ssa.Function, a []Value) Value {
 		s := in.setOf(a[0])
 		cp := &SetObj{elems: append([]*Term{}, s.elems...)}
-		return TupleV{[]Value{in.newAbstractBytes(cp, 8), IfaceV{}}}
+		return TupleV{[]Value{in.newDocBytes(cp), nilErr}}
 	}
 	S["(*"+ro+".Bitmap).ReadFrom"] = func(in *Interp, fn *ssa.Function, a []Value) Value {
-		r := a[1].(IfaceV).v.(PtrV).loc
-		data := r.sub[0].get().(SliceV)
+		data := in.readerBytes(a[1])
 		p, ok := in.payloadOf(data)
 		if !ok {
 			in.abort("unsupported", "ReadFrom non-abstract bytes")
 		}
+		so, ok := p.(*SetObj)
+		if !ok {
+			in.abort("unsupported", "ReadFrom bytes that do not hold a bitmap")
+		}
 		s := in.setOf(a[0])
-		s.elems = append([]*Term{}, p.(*SetObj).elems...)
-		return TupleV{[]Value{BVi(64, 8), IfaceV{}}}
+		s.elems = append([]*Term{}, so.elems...)
+		return TupleV{[]Value{BVi(64, 8), nilErr}}
 	}
 	S["fmt.Sprintf"] = func(in *Interp, fn *ssa.Function, a []Value) Value {
 		f, ok := a[0].(StrV).concrete()
@@ -171,6 +477,10 @@ func (in *Interp) installLibStubs() {
 				continue
 			}
 			i++
+			if f[i] == '%' {
+				sb.WriteByte('%')
+				continue
+			}
 			if ai >= va.n {
 				sb.WriteString("%!missing")
 				continue
@@ -199,9 +509,34 @@ func (in *Interp) installLibStubs() {
 		}
 		return strConst(sb.String())
 	}
-	S["(github.com/google/uuid.UUID).String"] = func(in *Interp, fn *ssa.Function, a []Value) Value { return strConst("<uuid>") }
+	// uuid <-> string: an abstract inverse pair (formatting forks 256-way per symbolic byte)
+	S["(github.com/google/uuid.UUID).String"] = func(in *Interp, fn *ssa.Function, a []Value) Value {
+		tag := in.fresh(8, "uuidstr")
+		b := make([]*Term, 36)
+		b[0] = tag
+		for i := 1; i < 36; i++ {
+			b[i] = BVu(8, '?')
+		}
+		in.uuidStrs[tag] = a[0]
+		return StrV{b}
+	}
+	S["github.com/google/uuid.Parse"] = func(in *Interp, fn *ssa.Function, a []Value) Value {
+		s := a[0].(StrV)
+		if len(s.b) == 36 {
+			if u, ok := in.uuidStrs[s.b[0]]; ok {
+				return TupleV{[]Value{u, nilErr}}
+			}
+		}
+		if _, ok := s.concrete(); !ok {
+			in.abort("unsupported", "uuid.Parse of a symbolic string that did not come from UUID.String")
+		}
+		if fn.Blocks == nil {
+			in.abort("unsupported", "uuid.Parse without body")
+		}
+		return in.callBody(fn, a)
+	}
 	in.intrinsics["vdoc"] = func(in *Interp, args []Value) Value {
-		return in.newAbstractBytes(args[0], 4)
+		return in.newDocBytes(in.deepCopy(args[0]))
 	}
 }
 
